@@ -19,6 +19,7 @@ package cacheutil
 import (
 	"sync"
 
+	"github.com/containerd/stargz-snapshotter/util/verifhook"
 	"github.com/golang/groupcache/lru"
 )
 
@@ -52,6 +53,7 @@ func NewLRUCache(maxEntries int) *LRUCache {
 // will no longer be used.
 func (c *LRUCache) Get(key string) (value any, done func(), ok bool) {
 	c.mu.Lock()
+	verifhook.Event("lru.Get", c, key)
 	defer c.mu.Unlock()
 	o, ok := c.cache.Get(key)
 	if !ok {
@@ -68,6 +70,7 @@ func (c *LRUCache) Get(key string) (value any, done func(), ok bool) {
 // `done` callback to decrease the counter when the value will no longer be used.
 func (c *LRUCache) Add(key string, value any) (cachedValue any, done func(), added bool) {
 	c.mu.Lock()
+	verifhook.Event("lru.Add", c, key)
 	defer c.mu.Unlock()
 	if o, ok := c.cache.Get(key); ok {
 		rc := o.(*refCounter)
@@ -89,6 +92,7 @@ func (c *LRUCache) Add(key string, value any) (cachedValue any, done func(), add
 // nobody refers to the removed content.
 func (c *LRUCache) Remove(key string) {
 	c.mu.Lock()
+	verifhook.Event("lru.Remove", c, key)
 	defer c.mu.Unlock()
 	c.cache.Remove(key)
 }
@@ -97,6 +101,7 @@ func (c *LRUCache) decreaseOnceFunc(rc *refCounter) func() {
 	var once sync.Once
 	return func() {
 		c.mu.Lock()
+		verifhook.Event("lru.Release", c, rc.key)
 		defer c.mu.Unlock()
 		once.Do(func() { rc.dec() })
 	}
